@@ -1,5 +1,6 @@
 import KpModel.Xml.Parse
 import KpModel.Xml.Dump
+import KpModel.Props.C03
 /-!
 # C12 — save never succeeds with a file the library cannot read back, and never panics
 Property theorems only, over the faithful models of the XML writer (`dumpContent`), the xml-rs writer→reader
@@ -72,5 +73,17 @@ theorem blank_value_reopens :
     reopens { root := rootWith [entryWith [("Title", .unprotected " ")]] } = true := by decide +kernel
 theorem empty_tag_reopens :
     reopens { root := rootWith [entryWith [] {} [] ["", "a;b"]] } = true := by decide +kernel
+
+/-- **C12_partial**: on the whole domain `ContentOk` (everything C03 calls lossless: all of the schema with XML-representable,
+    non-blank strings, any tags, colours, icons, attachments, histories, any nesting) `save` does not panic, reports
+    success, and what it writes is accepted by `open` — for every key stream, compressor pair and map order.  The classes
+    outside the domain are exactly the witnesses above (known findings) and the lossy-but-readable cases below. -/
+theorem C12_partial (c : Content) (ks : Nat → Nat → Bytes) (gz : Bytes → Bytes) (gunz : Bytes → Option Bytes)
+    (u : Bytes → Option String) (orders : List (List String)) (now : Int) (fresh : Bytes)
+    (hc : ContentOk gz c) (hks : ∀ o n, (ks o n).length = n) (hgz : ∀ m, gunz (gz m) = some m) :
+    (dumpContent ⟨ks, gz⟩ u orders c).2.1 = true ∧
+    ∃ c' used, parseContent ⟨ks, gunz, now, fresh⟩ (view (dumpContent ⟨ks, gz⟩ u orders c).1 []) = .ok (c', used) := by
+  obtain ⟨h1, c', h2, _⟩ := C03_xml_roundtrip_partial c ks gz gunz u orders now fresh hc hks hgz
+  exact ⟨h1, c', _, h2⟩
 
 end Kp.Xml
